@@ -6,7 +6,12 @@ from core import match_known
 
 TEXTS = ["a\u0000b", "local x = 1\u0000\nprint(x)\n", "\u0000", "--c\u0000d\nx=1", "x = 1", "local t = {1,\n--[[c]] 2}\n", "---@class A\n---@field x integer\nlocal a = {}\n",
          "﻿local a = 1", "if x then\n  -- c\nend -- t\n", "f(\n", "local s = [[\nabc]]", "a = 1 --[==[ x ]==] b = 2", "\r\n\r\nx=1\r", "goto l ::l::", "x = {",
-         "--- d\n--- e\nfunction f() end", "  \n\t\n", ""]
+         "--- d\n--- e\nfunction f() end", "  \n\t\n", "",
+         ")", "}", "]", "=1", ".x", ", y", "~", ":", "not", ") x = 1", "local t = { name", "return { a = 1, { b", "global", "x = 1 -- \U0001F600", "--- doc \U0001F600",
+         "\U0001F600", "s = '\U0001F600' -- 名", "local t = {x", "a.b", "f(a", "x =",
+         "{\n;  else ", "local--region\n 1", "\n---@class A\n---@field x number?\n中文 a\n\n---@class B\n---@field x number\n中文 b\n\nb.x = a.x\n",
+         "local x = 1\nglobal\nlocal y = 2\n", "{ end\n", "\ufeff-- hello", "\ufefflocal a = 1\nreturn a\n", "$ -- c\n", "\ufeff#!x\nlocal a", "local a = 1\u0000", "-- note\u0000\nlocal a = 1\n",
+         "|if", "x <const> *\n", "---@param\n---@field\nlocal function f() end", "if x then else elseif end", "f(function() end", "t = {[1]=, 2}"]
 
 
 def replay(out, pending):
@@ -40,15 +45,19 @@ def replay(out, pending):
 
 def run(out):
     out.functions = ["Reader::{new,bump,reset_buff,is_eof,current_range,tail_range}", "LuaGreenNodeBuilder::{token,start_node,finish_node,is_trivia,is_trivia_whitespace}",
-                     "LuaParser::{init,bump,skip_trivia,parse_trivia_tokens,parse_comments,peek_next_token,peek_nth_token,previous_token_range,current_token_range}"]
+                     "LuaParser::{init,bump,skip_trivia,parse_trivia_tokens,parse_comments,peek_next_token,peek_nth_token,previous_token_range,current_token_range}",
+                     "MarkerEventContainer::{mark,push_node_end}, Marker::{complete,undo}, CompleteMarker::precede"]
     maxops = 4 if out.tier == "quick" else 6
     out.bounds = {"reader": "texts of every byte-width shape of <= %d characters, <= k+1 symbolic bump/reset operations" % (3 if out.tier == "quick" else 4),
                   "bump": "every token vector of <= %d tokens, each symbolic over (five trivia kinds | any other kind), doc parsing off" % (3 if out.tier == "quick" else 5),
-                  "builder": "every balanced operation sequence of <= %d operations inside the Chunk wrapper; all node / token kinds symbolic" % maxops}
+                  "marker": "every sequence of <= %d marker operations starting with mark(); kinds symbolic" % (4 if out.tier == "quick" else 6),
+                  "builder": "every event stream NodeStart(Block) <inner> NodeEnd with a balanced inner sequence of <= %d events, run through the real LuaTreeBuilder::build; all node / token kinds symbolic" % maxops}
     out.outside = ["the lexer's choice of lexeme boundaries and lexemes (whole-lexer symbolic runs do not terminate; see DESIGN.md)",
                    "the grammar (which node events it emits, recovery paths), doc-comment parsing (LuaDocParser; enable_emmylua_doc = true)", "rowan's storage of token texts (build_rowan_green is mirrored, not executed)",
                    "operation sequences longer than the bound"]
-    out.assumptions = ["Vec / slice / iterator operations follow their std contracts (exact models in mirsmt/vecmodel.py)",
+    out.assumptions = ["event streams have the shape the grammar gives them: NodeStart(Block) <inner> NodeEnd (parse_chunk); G1: a nested Block directly follows the non-trivia keyword token that "
+                       "introduces it; G2 (losslessness only): before the first token is eaten at most one open node is closed by error recovery, and the token after it is the unexpected, non-trivia one",
+                       "Vec / slice / iterator operations follow their std contracts (exact models in mirsmt/vecmodel.py)",
                        "finish() emits the first top-level child depth-first (read from the source; the walk is mirrored in the check)",
                        "Kani's std model for the Reader harnesses"]
     pk.run_reader(out)
@@ -57,6 +66,7 @@ def run(out):
     try:
         pending = pk.builder_obligations(out, mc, True, maxops)
         pending += pk.parser_obligations(out, mc, True, 3 if out.tier == "quick" else 5)
+        pending += pk.marker_obligation(out, mc, 4 if out.tier == "quick" else 6)
     except (symex.Unsupported, RuntimeError, KeyError, ValueError, IndexError, AttributeError, TypeError) as e:
         import traceback
         out.fatal = "engine M could not encode the current source: %r\n%s" % (e, traceback.format_exc()[-1500:])
